@@ -41,6 +41,8 @@ def run(ctx):
     ctx.rule("R11.o", "no hook runs on shared containers: in __param_inheritance the copy of the mutable slot values taken over from an ancestor precedes param._update_state() (which, for "
                       "selectors, appends the merged default to `_objects` in place) -- otherwise creating a subclass edits the ancestor's Parameter", floor=1)
     copies_before_hooks(ctx, "R11.o")
+    ctx.rule("R11.m", "the MRO is Python's: classlist obtains the order of the ancestors from inspect.getmro / __mro__ / mro(), it does not merge the bases' lists itself", floor=1)
+    linearisation_is_pythons(ctx, "R11.m")
     ctx.rule("R11.u", "selector model, _update_state: the hook between merge and re-validation appends the merged default to the objects only when check_on_set is False (a dynamic default function "
                       "does not switch the membership check off)", floor=1)
     from checks import selector_model
@@ -257,3 +259,21 @@ def copies_before_hooks(ctx, rule):
                                            "merged default to `_objects` in place (check_on_set=False), i.e. to the ANCESTOR's list -- creating B(A) adds B's default to A's objects, and later "
                                            "re-declarations below A inherit the polluted list", key=f.qualname + "::hook-before-copy",
                  input="class A: s = Selector(objects=[1, 2], check_on_set=False); class B(A): s = Selector(default=3) -> A.param.s.objects == [1, 2, 3]")
+
+
+def linearisation_is_pythons(ctx, rule):
+    """"The nearest class in its MRO" is Python's C3 linearisation.  `classlist` -- from which __param_inheritance, the
+    descriptor lookup and the `.param` lookup take the order of the ancestors -- obtains it from Python itself
+    (inspect.getmro / __mro__ / mro()); a hand-rolled merge of the bases' lists agrees with C3 on chains and plain
+    diamonds and differs as soon as a base is listed redundantly (K5(K4, K1) with K4(K1, K3))."""
+    f = ctx.repo.func("param.parameterized.classlist")
+    uses = [n for n in ast.walk(f.node) if (isinstance(n, ast.Call) and norm(n.func) in ("inspect.getmro", "getmro", "type.mro"))
+            or (isinstance(n, ast.Attribute) and n.attr in ("__mro__", "mro"))]
+    own = [n for n in ast.walk(f.node) if isinstance(n, ast.Attribute) and n.attr == "__bases__"]
+    if uses and not own:
+        ctx.ok(rule, f, uses[0], "classlist takes the order of the ancestors from Python's own MRO")
+    else:
+        ctx.fail(rule, f, (own or [f.node])[0], "classlist computes the order of the ancestors itself (%s) instead of taking Python's MRO: a merge of the bases' lists is not the C3 linearisation "
+                                                "-- with K4(K1, K3) and K5(K4, K1) the unspecified attributes of K5's Parameter come from K3 instead of K1, the nearest class of the real MRO" % (
+                                                    "walks __bases__" if own else "no use of inspect.getmro / __mro__ / mro()"), key=f.qualname + "::hand-rolled-linearisation",
+                 input="class K4(K1, K3); class K5(K4, K1): x = Number()   # unspecified default taken from K3 (50) instead of K1 (5)")
